@@ -382,6 +382,9 @@ impl Engine for ArenaEngine {
         Some(FuzzSpec { target: "fz_arena", max_len: 8 + 4 * 80, target_prefix: vec![], engine_prefix: vec![] })
     }
     fn sweep(&self, tier: Tier, idx: u32, nworkers: u32) -> Option<SweepOut> {
+        if self.prop == "C03" {
+            return Some(ctor_leak_sweep(idx));
+        }
         if self.prop != "C01" && self.prop != "C04" {
             return None;
         }
@@ -393,6 +396,9 @@ impl Engine for ArenaEngine {
                 Ok((_, bad, _)) => bad,
                 Err(e) => vec![format!("ENGINE: {e}")],
             };
+        }
+        if let Some(it) = item["ctor_leak_item"].as_str() {
+            return ctor_leak_table().into_iter().filter(|(k, _, _)| k == it).filter_map(|(_, _, m)| m).collect();
         }
         if let Some(n) = item["ctor_n"].as_u64() {
             return ctor_table().into_iter().filter(|(k, _, _)| *k as u64 == n).filter_map(|(_, _, m)| m).collect();
@@ -480,6 +486,89 @@ pub fn ctor_table() -> Vec<(usize, String, Option<String>)> {
     probe!(128, false);
     probe!(4096, false);
     probe!(usize::MAX, false);
+    out
+}
+
+/// C03 constructor table: every constructor form x supported and unsupported MIN_ALIGN x capacity x allocator mood.
+/// Whatever the constructor does (construct, return Err, panic), once the arena (if any) has been dropped the
+/// global allocator must have got back every block the constructor obtained. Returns (item, description, violation).
+pub fn ctor_leak_table() -> Vec<(String, String, Option<String>)> {
+    use bumpalo::Bump;
+    use crate::ledger::{self, enter_arena, Plan};
+    let mut out = vec![];
+    let caps: [usize; 6] = [0, 1, 100, 448, 5000, 70000];
+    let plans: [(&str, Plan); 3] = [("allocator grants", Plan::None), ("allocator refuses everything", Plan::FailAll), ("allocator refuses the first request", Plan::FailKth(0))];
+    macro_rules! probe {
+        ($n:expr, $valid:expr) => {{
+            // (an unsupported MIN_ALIGN panics with a formatted message, which the standard library allocates before the
+            // panic hook can leave arena mode: no refusing plans there, or the harness itself would run out of memory)
+            for &cap in caps.iter() {
+                for (pname, plan) in plans.iter().take(if $valid { 3 } else { 1 }) {
+                    let forms: [(&str, Box<dyn Fn() + std::panic::UnwindSafe>); 4] = [
+                        ("with_min_align()", Box::new(|| drop(Bump::<{ $n }>::with_min_align()))),
+                        ("default()", Box::new(|| drop(<Bump<{ $n }> as Default>::default()))),
+                        ("with_min_align_and_capacity", Box::new(move || drop(Bump::<{ $n }>::with_min_align_and_capacity(cap)))),
+                        ("try_with_min_align_and_capacity", Box::new(move || drop(Bump::<{ $n }>::try_with_min_align_and_capacity(cap)))),
+                    ];
+                    for (fi, (name, f)) in forms.into_iter().enumerate() {
+                        if fi < 2 && cap != 0 {
+                            continue;
+                        }
+                        ledger::begin_case(0xC03);
+                        ledger::set_plan(1, *plan);
+                        let panicked = {
+                            let _g = enter_arena(1);
+                            std::panic::catch_unwind(f).is_err()
+                        };
+                        let mut blocks = vec![];
+                        ledger::blocks(1, &mut blocks);
+                        let total = blocks.len();
+                        let live: Vec<usize> = blocks.iter().filter(|b| b.live).map(|b| b.size).collect();
+                        let item = format!("Bump::<{}>::{name}({}) [{pname}]", $n as usize, if fi < 2 { String::new() } else { cap.to_string() });
+                        let viol = if !live.is_empty() {
+                            Some(format!("{item}: the constructor {} and whatever it built was dropped, yet {} block(s) obtained from the global allocator ({:?} bytes) were never given back", if panicked { "panicked" } else { "returned" }, live.len(), live))
+                        } else {
+                            None
+                        };
+                        out.push((item.clone(), format!("{item}: {}, {total} block(s) obtained, {} still held", if panicked { "panics" } else { "returns" }, live.len()), viol));
+                        ledger::end_case();
+                    }
+                }
+            }
+        }};
+    }
+    probe!(1, true);
+    probe!(2, true);
+    probe!(4, true);
+    probe!(8, true);
+    probe!(16, true);
+    probe!(0, false);
+    probe!(3, false);
+    probe!(24, false);
+    probe!(32, false);
+    probe!(64, false);
+    probe!(4096, false);
+    out
+}
+
+pub fn ctor_leak_sweep(idx: u32) -> SweepOut {
+    install_quiet_panic_hook();
+    let mut out = SweepOut { exhaustive: true, ..Default::default() };
+    if idx != 0 {
+        return out;
+    }
+    let table = ctor_leak_table();
+    for (item, _desc, viol) in table.iter() {
+        out.evaluations += 1;
+        out.nontrivial += 1;
+        if let Some(m) = viol {
+            if out.viol.len() < 3 {
+                out.viol.push((m.clone(), json!({"ctor_leak_item": item})));
+            }
+        }
+    }
+    out.extra.insert("constructor_leak_table_entries".to_string(), json!(table.len()));
+    out.extra.insert("constructor_leak_table_sample".to_string(), json!(table.iter().filter(|t| t.0.contains("<32>") || t.0.contains("<8>")).take(8).map(|t| t.1.clone()).collect::<Vec<_>>()));
     out
 }
 
